@@ -29,7 +29,8 @@ structure MRel (opts : Opts) (d : Decls) (on off : Defs) : Prop where
   kn : ∀ r, (off.sym r).known = (on.sym r).known
   ne : ∀ r, (off.sym r).noEmit = (on.sym r).noEmit
   c2 : ∀ r, (off.sym r).resolved = true → (on.sym r).resolved = true
-  c1 : ∀ r, (on.sym r).resolved = true → (off.sym r).resolved = false → kindOf d r = .constant ∧ notDefined opts d r = true
+  c1 : ∀ r, (on.sym r).resolved = true → (off.sym r).resolved = false →
+    kindOf d r = .constant ∧ notDefined opts d r = true ∧ (on.sym r).known = true
   c3 : ∀ r, (off.sym r).resolved = true → ¬ (kindOf d r = .constant ∧ notDefined opts d r = true)
 
 theorem MRel.refl_empty (opts : Opts) (d : Decls) : MRel opts d {} {} :=
@@ -106,7 +107,11 @@ theorem MRel.padset {opts : Opts} {d : Decls} {on off : Defs} (m : MRel opts d o
   · simp only [sym_padset] at h1 h2
     split at h1
     · rw [hsd] at h1; cases h1
-    · rename_i hne; simp only [hne, if_false] at h2; exact m.c1 r' h1 h2
+    · rename_i hne
+      simp only [hne, if_false] at h2
+      have := m.c1 r' h1 h2
+      simp only [sym_padset, hne, if_false]
+      exact this
   · simp only [sym_padset] at h
     split at h
     · rw [hsd] at h; cases h
@@ -132,5 +137,177 @@ theorem MRel.define {opts : Opts} {d : Decls} : ∀ (l : List AstNode) (on off :
     intro on off m
     rw [defineSymbols_eq, defineSymbols_eq, List.foldl_cons, List.foldl_cons, ← defineSymbols_eq, ← defineSymbols_eq]
     exact ih _ _ (m.defineStep n)
+
+/-- both runs write the slot of `r` (which exists) -/
+theorem MRel.write {opts : Opts} {d : Decls} {on off : Defs} (m : MRel opts d on off) (r : Nat)
+    (hslot : (on.symbols.getD r none).isSome = true) (sx sy : SymDef)
+    (hv : sy.value = sx.value) (hk : sy.known = sx.known) (hne : sy.noEmit = sx.noEmit)
+    (h2 : sy.resolved = true → sx.resolved = true)
+    (h1 : sx.resolved = true → sy.resolved = false → kindOf d r = .constant ∧ notDefined opts d r = true ∧ sx.known = true)
+    (h3 : sy.resolved = true → ¬ (kindOf d r = .constant ∧ notDefined opts d r = true)) :
+    MRel opts d (on.setSym r sx) (off.setSym r sy) := by
+  have hslot' : (off.symbols.getD r none).isSome = true := by rw [m.slot r]; exact hslot
+  have cases_on : ∀ r', (r' = r ∧ (on.setSym r sx).sym r' = sx ∧ (off.setSym r sy).sym r' = sy) ∨
+      (r' ≠ r ∧ (on.setSym r sx).sym r' = on.sym r' ∧ (off.setSym r sy).sym r' = off.sym r') := by
+    intro r'
+    by_cases he : r' = r
+    · subst he
+      exact Or.inl ⟨rfl, sym_setSym_self on r' sx hslot, sym_setSym_self off r' sy hslot'⟩
+    · right
+      refine ⟨he, ?_, ?_⟩
+      · rcases sym_setSym on r r' sx with h | ⟨h, _⟩
+        · exact h
+        · exact absurd h he
+      · rcases sym_setSym off r r' sy with h | ⟨h, _⟩
+        · exact h
+        · exact absurd h he
+  refine ⟨m.banks, m.ruledefs, m.fns, m.instrs, m.datas, m.res, m.aligns, m.addrs, ?_, fun r' => ?_, fun r' => ?_, fun r' => ?_,
+    fun r' => ?_, fun r' h => ?_, fun r' ha hb => ?_, fun r' h => ?_⟩
+  · unfold Defs.setSym; simp only [List.length_set]; exact m.len
+  · rw [slot_setSym on r r' sx hslot, slot_setSym off r r' sy hslot']; exact m.slot r'
+  · rcases cases_on r' with ⟨_, e1, e2⟩ | ⟨_, e1, e2⟩ <;> rw [e1, e2]
+    · exact hv
+    · exact m.val r'
+  · rcases cases_on r' with ⟨_, e1, e2⟩ | ⟨_, e1, e2⟩ <;> rw [e1, e2]
+    · exact hk
+    · exact m.kn r'
+  · rcases cases_on r' with ⟨_, e1, e2⟩ | ⟨_, e1, e2⟩ <;> rw [e1, e2]
+    · exact hne
+    · exact m.ne r'
+  · rcases cases_on r' with ⟨_, e1, e2⟩ | ⟨_, e1, e2⟩ <;> rw [e2] at h <;> rw [e1]
+    · exact h2 h
+    · exact m.c2 r' h
+  · rcases cases_on r' with ⟨he, e1, e2⟩ | ⟨_, e1, e2⟩ <;> rw [e1] at ha ⊢ <;> rw [e2] at hb
+    · subst he; exact h1 ha hb
+    · exact m.c1 r' ha hb
+  · rcases cases_on r' with ⟨he, e1, e2⟩ | ⟨_, e1, e2⟩ <;> rw [e2] at h
+    · subst he; exact h3 h
+    · exact m.c3 r' h
+
+/-! ## `resolve_constants_simple`, side by side -/
+
+def AccRel (opts : Opts) (d : Decls) (nodes : List AstNode) (a b : Except String (Defs × Nat)) : Prop :=
+  match a with
+  | .error e => b = .error e
+  | .ok (x, k) => ∃ y, b = .ok (y, k) ∧ MRel opts d x y ∧ FInv opts d x nodes ∧ SlotsOK x nodes
+
+theorem staticOff_defines (opts : Opts) : opts.staticOff.defines = opts.defines := rfl
+theorem staticOff_optStatic (opts : Opts) : opts.staticOff.optStatic = false := rfl
+
+theorem setSym_same_value (y : Defs) (r : Nat) (hslot : (y.symbols.getD r none).isSome = true) :
+    y.setSym r { y.sym r with value := (y.sym r).value } = y := by
+  have : ({ y.sym r with value := (y.sym r).value } : SymDef) = y.sym r := rfl
+  rw [this]
+  refine setSym_self y r ?_
+  cases hx : y.symbols.getD r none with
+  | none => rw [hx] at hslot; cases hslot
+  | some s => exact Or.inr ⟨s, hx⟩
+
+theorem constStep_rel (opts : Opts) (ho : opts.optStatic = true) (d : Decls) (nodes : List AstNode) (n : AstNode) (hn : n ∈ nodes)
+    (a b : Except String (Defs × Nat)) (h : AccRel opts d nodes a b) :
+    AccRel opts d nodes (constStep opts d a n) (constStep opts.staticOff d b n) := by
+  cases a with
+  | error e =>
+    simp only [AccRel] at h
+    subst h
+    exact rfl
+  | ok xa =>
+    obtain ⟨x, k⟩ := xa
+    obtain ⟨y, hb, m, fx, sx⟩ := h
+    subst hb
+    cases n with
+    | symbol lv nm kd ne rr =>
+      cases kd with
+      | label => exact ⟨y, rfl, m, fx, sx⟩
+      | constant e =>
+        cases rr with
+        | none => exact ⟨y, rfl, m, fx, sx⟩
+        | some r =>
+          have hslot := sx _ hn r rfl
+          have hslot' : (y.symbols.getD r none).isSome = true := by rw [m.slot r]; exact hslot
+          have hni := fx.ni _ hn
+          simp only [NI] at hni
+          have hkind : kindOf d r = .constant := by
+            have := fx.kinv _ hn
+            simp only [KN, kindOfSym] at this
+            exact this.2
+          simp only [constStep, staticOff_defines, staticOff_optStatic, Bool.false_and, Bool.false_eq_true, if_false]
+          cases hrx : (x.sym r).resolved with
+          | true =>
+            simp only [if_true]
+            cases hry : (y.sym r).resolved with
+            | true => simp only [if_true]; exact ⟨y, rfl, m, fx, sx⟩
+            | false =>
+              simp only [Bool.false_eq_true, if_false]
+              obtain ⟨_, hnd, hkn⟩ := m.c1 r hrx hry
+              have hfind : opts.defines.find? (·.1 == (d.symbols.decls.getD r default).name) = none := by
+                unfold notDefined at hnd
+                simpa using hnd
+              obtain ⟨hvu, hpv⟩ := hni.2 hrx hkn hnd
+              rw [hfind]
+              simp only
+              rw [hpv d y]
+              simp only
+              -- the unoptimised run re-evaluates to the value it already holds
+              have hval : (x.sym r).value = (y.sym r).value := (m.val r).symm
+              have hy' : y.setSym r { y.sym r with value := (x.sym r).value } = y := by
+                have : ({ y.sym r with value := (x.sym r).value } : SymDef) = { y.sym r with value := (y.sym r).value } := by rw [hval]
+                rw [this, setSym_same_value y r hslot']
+              cases hxv : (x.sym r).value with
+              | unknown => exact absurd hxv hvu
+              | _ =>
+                all_goals (
+                  rw [hxv] at hy'
+                  simp only [hry] at hy'
+                  try simp only
+                  rw [hy']
+                  exact ⟨y, rfl, m, fx, sx⟩)
+          | false =>
+            have hry : (y.sym r).resolved = false := by
+              cases hh : (y.sym r).resolved with
+              | false => rfl
+              | true => rw [m.c2 r hh] at hrx; cases hrx
+            simp only [hry, Bool.false_eq_true, if_false]
+            cases hfind : opts.defines.find? (·.1 == (d.symbols.decls.getD r default).name) with
+            | some dv =>
+              simp only
+              obtain ⟨f', s'⟩ := fx.step_def sx lv nm e ne r dv hn hfind
+              refine ⟨_, rfl, ?_, f', s'⟩
+              refine m.write r hslot _ _ rfl (m.kn r) (m.ne r) (fun _ => rfl) (fun _ h => (by cases h)) (fun _ hh => ?_)
+              have : notDefined opts d r = false := by unfold notDefined; rw [hfind]; rfl
+              rw [this] at hh; cases hh.2
+            | none =>
+              simp only
+              rw [evalSimple_rel m e]
+              cases hev : evalSimple d x e with
+              | error msg => exact rfl
+              | ok v =>
+                simp only
+                obtain ⟨f', s'⟩ := fx.step_ev sx lv nm e ne r v hn hrx hev
+                have hnd : notDefined opts d r = true := by unfold notDefined; rw [hfind]; rfl
+                cases v with
+                | unknown =>
+                  simp only
+                  have f'' : FInv opts d (x.setSym r { x.sym r with value := .unknown }) nodes := f'
+                  have s'' : SlotsOK (x.setSym r { x.sym r with value := .unknown }) nodes := s'
+                  simp only [hrx] at f'' s''
+                  refine ⟨_, rfl, ?_, f'', s''⟩
+                  exact m.write r hslot _ _ rfl (m.kn r) (m.ne r) (by intro h; simp_all) (by intro h; simp_all) (by intro h; simp_all)
+                | _ =>
+                  all_goals (
+                    simp only [ho, Bool.true_and]
+                    simp only [writeOf, ho, Bool.true_and, hrx] at f' s'
+                    rcases Bool.eq_false_or_eq_true (x.sym r).known with hk | hk
+                    · rw [if_pos hk]
+                      rw [if_pos hk] at f' s'
+                      refine ⟨_, rfl, ?_, f', s'⟩
+                      exact m.write r hslot _ _ rfl (m.kn r) (m.ne r) (fun _ => rfl)
+                        (fun _ _ => ⟨hkind, hnd, hk⟩) (by intro h; simp_all)
+                    · have hkf : ¬ (x.sym r).known = true := by rw [hk]; simp
+                      rw [if_neg hkf]
+                      rw [if_neg hkf] at f' s'
+                      refine ⟨_, rfl, ?_, f', s'⟩
+                      exact m.write r hslot _ _ rfl (m.kn r) (m.ne r) (by intro h; simp_all) (by intro h; simp_all) (by intro h; simp_all))
+    | _ => exact ⟨y, rfl, m, fx, sx⟩
 
 end Casm
